@@ -356,6 +356,12 @@ def globalOk (g : Global) : Bool :=
   let interval := if g.scrapeInterval = 0 then minute else g.scrapeInterval
   decide (g.scrapeTimeout ≤ interval) && (g.protocols.isEmpty || validProtocols g.protocols)
 
+def isLegacyName (s : String) : Bool :=
+  match s.toList with
+  | [] => false
+  | c :: cs => (c == '_' || ('a' ≤ c && c ≤ 'z') || ('A' ≤ c && c ≤ 'Z')) &&
+      cs.all fun d => d == '_' || ('a' ≤ d && d ≤ 'z') || ('A' ≤ d && d ≤ 'Z') || ('0' ≤ d && d ≤ '9')
+
 def sortLabels (l : List (String × String)) : List (String × String) :=
   l.mergeSort fun a b => decide (a.1 ≤ b.1)
 
@@ -392,6 +398,9 @@ def decodeGlobalMap (kvs : List (String × YNode)) : Res Global := do
       protocols := protocols,
       externalLabels := ← decodeLabels (kvs.lookup "external_labels") }
   if !globalOk g then throw "global: timeout greater than interval / bad scrape_protocols"
+  -- external label names are validated against the global scheme (legacy: [a-zA-Z_][a-zA-Z0-9_]*)
+  if g.validation = 1 && !(g.externalLabels.all fun kv => isLegacyName kv.1) then throw "external label name"
+  if g.externalLabels.any (fun kv => kv.1 = "") then throw "external label name"
   pure (finishGlobal g)
 
 def decodeGlobal : Option YNode → Res Global
